@@ -29,14 +29,22 @@ import warnings
 import xgi
 from xgi.exception import XGIError
 
+from .. import c10_lib as L10
 from ..core import TRUSTED_COMMON, VERIF, Infra, build_and_audit, canon, finish, idkey, jhash, run_driver
 from ..fn import all_small_hypergraphs, conclude
+from . import c10 as C10
 
 from collections import Counter
 
 _SHRUNK = set()
 STAT = Counter()   # how often the property's predicate was actually evaluated, per format (filled by the evaluators)
 DELIMS = [" ", ",", ";", "|", "\t"]
+# "any delimiter that cannot occur in a label": delimiters of more than one character (outside the Lean model, which is
+# per character: the predicate alone decides these)
+MULTI_DELIMS = [", ", "::", "||", "\t ", " ; ", "-->"]
+COMMENT_TOKENS = ["#", "#", "%", "//", None]
+# only ASCII-compatible encodings without a byte-order mark: the writers encode and the readers decode line by line
+ENCODINGS = ["utf-8", "latin-1", "cp1252", "ascii"]
 TY = {None: None, "int": int, "str": str}
 CLASSES = {"Hypergraph": xgi.Hypergraph, "DiHypergraph": xgi.DiHypergraph, "SimplicialComplex": xgi.SimplicialComplex}
 
@@ -54,17 +62,20 @@ def gen_value(rng, depth=0):
 
 
 ATTR_NAMES = ["weight", "color", "a", "name", "x y", "é", "w2", "0"]
+# keys spelled like parameters of add_node / add_edge / the constructors (a reader forwarding a dict as **attr breaks)
+PARAM_NAMES = ["node", "idx", "members", "attr", "edge", "n", "incoming_data", "self"]
 
 
 def gen_attrs(rng, p=0.5):
     if rng.random() > p:
         return {}
-    return {k: gen_value(rng) for k in rng.sample(ATTR_NAMES, rng.randint(1, 3))}
+    pool = ATTR_NAMES + PARAM_NAMES if rng.random() < 0.5 else ATTR_NAMES
+    return {k: gen_value(rng) for k in rng.sample(pool, rng.randint(1, 3))}
 
 
 INT_LABELS = [lambda k: list(range(k)), lambda k: list(range(1, k + 1)), lambda k: [-i for i in range(k)],
               lambda k: [100 + 7 * i for i in range(k)][::-1], lambda k: [10 ** i for i in range(k)]]
-STR_LABELS = [lambda k: list("abcdefgh"[:k]), lambda k: ["n%d" % i for i in range(k)], lambda k: [str(10 + i) for i in range(k)],
+STR_LABELS = [lambda k: ["é", "ß", "ü", "ñ", "å", "ø", "ç", "æ"][:k], lambda k: list("abcdefgh"[:k]), lambda k: ["n%d" % i for i in range(k)], lambda k: [str(10 + i) for i in range(k)],
               lambda k: ["é", "日本", "ß", "Ω", "ж", "x", "y", "z"][:k], lambda k: ["a b", "c d", "e", "f g h", "i", "j", "k", "l"][:k]]
 ODD_STR = ["x,y", "p|q", "s;t", "u\tv", "h#1", " pad", "pad ", "", "a b", "-", "1_0", "+5", "٣", "1.5", "e1"]
 
@@ -125,20 +136,32 @@ def gen_net(rng, cls="Hypergraph", node_kind=None, edge_kind=None, attrs=True, e
 
 
 def build_net(net):
-    """the real network, through the public API only"""
+    """the real network, through the public API only.  Attribute dicts are never passed as **kwargs (a key may be
+    spelled like a parameter): nodes and edges are created bare, then set_node_attributes / set_edge_attributes."""
+    import copy
     cls = net["cls"]
-    H = CLASSES[cls]()
+    try:
+        H = CLASSES[cls]()
+        for n, _ in net["nodes"]:
+            H.add_node(n)
+        with warnings.catch_warnings():
+            warnings.simplefilter("ignore")
+            for e, ms, _ in net["edges"]:
+                if cls == "DiHypergraph":
+                    H.add_edge((list(ms[0]), list(ms[1])), idx=e)
+                elif cls == "SimplicialComplex":
+                    H.add_simplex(list(ms), idx=e)
+                else:
+                    H.add_edge(list(ms), idx=e)
+            H.set_node_attributes({n: copy.deepcopy(a) for n, a in net["nodes"] if a})
+            H.set_edge_attributes({e: copy.deepcopy(a) for e, _, a in net["edges"] if a and e in H.edges})
+        for k, v in net["net"].items():
+            H[k] = copy.deepcopy(v)
+    except Exception as ex:  # noqa
+        raise Infra(f"generator defect: cannot build {net}: {type(ex).__name__}: {ex}")
     for n, a in net["nodes"]:
-        H.add_node(n, **a)
-    for e, ms, a in net["edges"]:
-        if cls == "DiHypergraph":
-            H.add_edge((list(ms[0]), list(ms[1])), idx=e, **a)
-        elif cls == "SimplicialComplex":
-            H.add_simplex(list(ms), idx=e, **a)
-        else:
-            H.add_edge(list(ms), idx=e, **a)
-    for k, v in net["net"].items():
-        H[k] = v
+        if jv(H.nodes[n]) != jv(a):
+            raise Infra(f"generator defect: node {n!r} has attributes {H.nodes[n]} instead of {a}")
     return H
 
 
@@ -191,9 +214,38 @@ def quiet(fn, *a, **k):
         return fn(*a, **k)
 
 
-def read_text(p):
+def read_text(p, encoding="utf-8"):
     with open(p, "rb") as f:
-        return f.read().decode("utf-8")
+        return f.read().decode(encoding)
+
+
+def write_text(p, text, encoding="utf-8"):
+    with open(p, "wb") as f:
+        f.write(text.encode(encoding))
+
+
+def encodable(labels, encoding):
+    try:
+        "".join(str(x) for x in labels).encode(encoding)
+        return True
+    except UnicodeError:
+        return False
+
+
+def using_of(case):
+    """create_using argument of a reader: None | the class | a fresh instance | an instance with content (it must be
+    cleared, 'If hypergraph instance, then cleared before populated')"""
+    k = case.get("using")
+    if k == "class":
+        return xgi.Hypergraph
+    if k == "instance":
+        return xgi.Hypergraph()
+    if k == "used-instance":
+        H = xgi.Hypergraph()      # content without edges: the automatic edge-ID counter (C04's business) stays at 0
+        H.add_nodes_from(["zz", "yy"])
+        H["stale"] = 1
+        return H
+    return None
 
 
 def net_result(R, sort_nodes=False):
@@ -206,14 +258,18 @@ def net_result(R, sort_nodes=False):
 
 # ----------------------------------------------------------------------------- label domain of the text formats
 
-def label_ok(x, rdelim):
+def label_ok(x, rdelim, comments="#"):
     """the statement's domain for text formats: the rendered label is non-empty, contains neither the delimiter
-    nor the comment token nor a newline, and has no leading/trailing whitespace (strip() would eat it)"""
+    nor the comment token nor a newline, and has no leading/trailing whitespace (strip() would eat it).  For a
+    delimiter of several characters "cannot occur in a label" is read as: the label shares no character with it
+    ("a:" + "::" + "b" splits wrongly although "::" occurs in neither label)."""
     s = str(x)
-    if not s or "#" in s or "\n" in s or s != s.strip():
+    if not s or (comments is not None and comments in s) or "\n" in s or s != s.strip():
         return False
     if rdelim is None:
         return not any(c.isspace() for c in s)
+    if len(rdelim) > 1:
+        return not any(c in s for c in rdelim)
     return rdelim not in s
 
 
@@ -229,23 +285,76 @@ def cast_matches(labels, ty):
 # ----------------------------------------------------------------------------- one case on the implementation
 # every evaluator returns (fails, request for the model or None, impl result for the comparison or None)
 
+CLS10 = {"Hypergraph": "hg", "DiHypergraph": "dhg", "SimplicialComplex": "sc"}
+NT10 = {None: "none", "str": "none", "int": "int"}
+JSON_LAYER = Counter()   # the hypothesis `jsonRoundTrip` of write_hif_read_hif_rt*, exhibited on every written document
+
+
+def plain(x):
+    """IDDict / defaultdict / tuple documents as json.loads returns them (dict / list)"""
+    if isinstance(x, dict):
+        return {k: plain(v) for k, v in x.items()}
+    if isinstance(x, (list, tuple)):
+        return [plain(v) for v in x]
+    return x
+
+
+def cast_ids(ids, ty):
+    """IDs for which the cast `ty` is total and injective; the expected IDs after the cast"""
+    try:
+        out = [TY[ty](i) for i in ids] if ty else list(ids)
+    except (ValueError, TypeError):
+        return None
+    return out if len(set(map(repr, out))) == len(out) else None
+
+
 def ev_hif(case, tmp):
     net = case["net"]
     H = build_net(net)
     p = os.path.join(tmp, "n.hif.json")
     xgi.write_hif(H, p)
     a = snap(H)
+    nty, ety = case.get("nodetype"), case.get("edgetype")
     try:
-        R = xgi.read_hif(p, nodetype=TY[case.get("nodetype")], edgetype=TY[case.get("edgetype")])
+        R = xgi.read_hif(p, nodetype=TY[nty], edgetype=TY[ety])
     except Exception as ex:  # noqa
+        if isinstance(ex, TypeError) and "got multiple values for argument" in str(ex):
+            return [(KWARG_CLASH + ":" + net["cls"], f"read_hif raised {type(ex).__name__}: {ex} (attribute dict forwarded as **kwargs)")], None, None
         return [("read-raises:" + net["cls"], f"read_hif raised {type(ex).__name__}: {ex}")], None, None
-    fails = [(c + ":" + net["cls"], d) for c, d in same_network(a, snap(R))]
+    b = snap(R)
+    fails = []
+    if case.get("real_cast"):
+        # a cast that changes the IDs (digit strings -> int, ints -> str): the same network under the cast IDs
+        cn, ce = (TY[nty] or (lambda x: x)), (TY[ety] or (lambda x: x))
+        want = snap(build_net(relabel_net(net, cn, ce)))
+        fails = [("cast-" + c + ":" + net["cls"], d) for c, d in same_network(want, b)]
+        STAT["predicate:hif:real-cast"] += 1
+        return fails, None, None
+    fails = [(c + ":" + net["cls"], d) for c, d in same_network(a, b)]
     STAT["predicate:hif:" + net["cls"]] += 1
-    # correspondence on IDs: the value stored in the file for each node / edge vs the model's idOfJVal . idToJVal
     doc = json.loads(read_text(p))
-    ids = [r["node"] for r in doc.get("incidences", [])][:3] + [r["edge"] for r in doc.get("incidences", [])][:3]
-    reqs = [{"f": "hifid", "id": i, "type": None} for i in ids]
-    return fails, reqs, [{"out": "ok", "read": {"out": "ok", "id": i}} for i in ids]
+    JSON_LAYER["hif:documents"] += 1
+    JSON_LAYER["hif:loads(dumps(d))==d"] += (doc == plain(xgi.to_hif_dict(H)))
+    if nty or ety:
+        return fails, None, None      # identity casts: the model's reader has no cast argument
+    # correspondence: the document in the file and the network read back vs the model's writeHif / readHif
+    anet = L10.snapshot(H)
+    c10case = {"f": "hif_dict", "net": anet}
+    reqs = [{"f": "hif", "net": anet}]
+    wants = [{"out": "ok", "rep": L10.hif_rep(doc), "rt": L10.snapshot(R), "_c10": c10case}]
+    ids = [r["node"] for r in doc.get("incidences", [])][:2] + [r["edge"] for r in doc.get("incidences", [])][:2]
+    reqs += [{"f": "hifid", "id": i, "type": None} for i in ids]
+    wants += [{"out": "ok", "read": {"out": "ok", "id": i}} for i in ids]
+    return fails, reqs, wants
+
+
+def relabel_net(net, fn, fe):
+    di = net["cls"] == "DiHypergraph"
+    return dict(net, nodes=[[fn(n), a] for n, a in net["nodes"]],
+                edges=[[fe(e), ([[fn(x) for x in ms[0]], [fn(x) for x in ms[1]]] if di else [fn(x) for x in ms]), a] for e, ms, a in net["edges"]])
+
+
+KWARG_CLASH = "attribute-key-named-like-a-parameter"
 
 
 def ev_json(case, tmp):
@@ -273,23 +382,49 @@ def ev_json(case, tmp):
         if in_domain:
             fails.append(("write-raises", f"write_json raised {wout}"))
         return fails, [req], [{"out": "ok", "write": {"out": wout}, "keys": None, "read": None}]
-    keys = list(json.loads(read_text(p))["node-data"].keys())
+    doc = json.loads(read_text(p))
+    keys = list(doc["node-data"].keys())
+    JSON_LAYER["json:documents"] += 1
+    JSON_LAYER["json:loads(dumps(d))==d"] += (doc == plain(quiet(xgi.to_hypergraph_dict, H)))
+    reqs, wants = [req], None
+    full = None
     try:
         R = quiet(xgi.read_json, p, nodetype=TY[nty], edgetype=TY[ety])
         res = net_result(R)
         if in_domain:
             fails += same_network(snap(H), snap(R))
+        elif case.get("real_cast"):
+            cn, ce = cast_ids(nodes, nty), cast_ids(eids, ety)
+            if cn is not None and ce is not None:
+                # documented casts that change the IDs (ints without a cast come back as str, digit strings under int as int)
+                fn, fe = (TY[nty] or str), (TY[ety] or str)
+                fails += [("cast-" + c, d) for c, d in same_network(snap(build_net(relabel_net(net, fn, fe))), snap(R))]
+                STAT["predicate:json:real-cast"] += 1
+        full = {"out": "ok", "rep": L10.hdict_rep(doc), "rt": L10.snapshot(R)}
     except Exception as ex:  # noqa
         res = {"out": outcome(ex)}
-        if in_domain:
+        full = {"out": L10.err_kind(ex)}
+        if isinstance(ex, TypeError) and "got multiple values for argument" in str(ex):
+            fails.append((KWARG_CLASH, f"read_json raised {type(ex).__name__}: {ex} (attribute dict forwarded as **kwargs)"))
+            full = None        # the model describes the repaired reader
+        elif in_domain:
             fails.append(("read-raises", f"read_json raised {type(ex).__name__}: {ex}"))
-    return fails, [req], [{"out": "ok", "write": "ok", "keys": keys, "read": res}]
+    wants = [{"out": "ok", "write": "ok", "keys": keys, "read": res}]
+    if full is not None:
+        anet = L10.snapshot(H)
+        c10case = {"f": "hypergraph_dict", "net": anet, "nodetype": NT10[nty], "edgetype": NT10[ety]}
+        reqs.append(dict(c10case, f="jsonfull"))
+        wants.append(dict(full, _c10=c10case))
+    return fails, reqs, wants
 
 
 def _text_domain(case, labels_n, labels_e=()):
     rd = case["rdelim"]
+    cm = case.get("comments", "#")
+    labels = list(labels_n) + list(labels_e)
     return (case.get("in_domain", True) and case["delim"] == (rd if rd is not None else case["delim"]) and
-            (rd is not None or case["delim"] in (" ", "\t")) and all(label_ok(x, rd) for x in list(labels_n) + list(labels_e)))
+            (rd is not None or case["delim"].isspace()) and all(label_ok(x, rd, cm) for x in labels)
+            and (cm is None or not any(c in cm for c in case["delim"])) and encodable(labels, case.get("encoding", "utf-8")))
 
 
 def ev_edgelist(case, tmp):
@@ -297,11 +432,16 @@ def ev_edgelist(case, tmp):
     H = build_net(net)
     p = os.path.join(tmp, "el.txt")
     members = [list(H.edges.members(e)) for e in H.edges]
-    xgi.write_edgelist(H, p, delimiter=case["delim"])
-    text = case.get("text") if case.get("text") is not None else read_text(p)
+    enc = case.get("encoding", "utf-8")
+    ekw = {"encoding": enc} if "encoding" in case else {}
+    U = using_of(case)
+    ukw = {"create_using": U} if case.get("using") else {}
+    if "encoding" in case and not encodable([x for ms in members for x in ms], enc):
+        enc, ekw = "utf-8", {}
+    xgi.write_edgelist(H, p, delimiter=case["delim"], **ekw)
+    text = case.get("text") if case.get("text") is not None else read_text(p, enc)
     if case.get("text") is not None:
-        with open(p, "wb") as f:
-            f.write(text.encode("utf-8"))
+        write_text(p, text, enc)
     cm = case.get("comments", "#")
     req = {"f": "edgelist", "delim": case["delim"], "rdelim": case["rdelim"], "comments": cm, "nodetype": case.get("nodetype"), "text": text}
     if case.get("text") is None:
@@ -311,20 +451,24 @@ def ev_edgelist(case, tmp):
     fails = []
     STAT["predicate:edgelist:nodetype=" + str(case.get("nodetype"))] += bool(dom)
     try:
-        R = xgi.read_edgelist(p, comments=cm, delimiter=case["rdelim"], nodetype=TY[case.get("nodetype")])
+        R = xgi.read_edgelist(p, comments=cm, delimiter=case["rdelim"], nodetype=TY[case.get("nodetype")], **ekw, **ukw)
         res = net_result(R, sort_nodes=True)
         if dom:
             got = [sorted(map(repr, R.edges.members(e))) for e in R.edges]
             want = [sorted(map(repr, ms)) for ms in members]
             if got != want:
-                fails.append(("edges-differ", f"wrote member sets {want} read {got}"))
+                fails.append(("edges-differ", f"delimiter {case['delim']!r}: wrote member sets {want} read {got}"))
             elif sorted(map(repr, R.nodes)) != sorted({repr(x) for x in used}):
                 fails.append(("nodes-differ", f"nodes read {sorted(map(repr, R.nodes))}"))
+            elif dict(R._net_attr):
+                fails.append(("create-using-not-cleared", f"network attributes {dict(R._net_attr)} survive in the network read"))
+            elif case.get("using") in ("instance", "used-instance") and R is not U:
+                fails.append(("create-using-ignored", "the network read is not the instance given as create_using"))
     except Exception as ex:  # noqa
         res = {"out": outcome(ex)}
         if dom:
-            fails.append(("read-raises", f"read_edgelist raised {type(ex).__name__}: {ex}"))
-    gen = read_text(p) if case.get("text") is None else None
+            fails.append(("read-raises", f"read_edgelist (delimiter {case['rdelim']!r}, comments {cm!r}, encoding {enc}) raised {type(ex).__name__}: {ex}"))
+    gen = read_text(p, enc) if case.get("text") is None else None
     return fails, [req], [{"out": "ok", "gen": gen, "read": res}]
 
 
@@ -333,11 +477,16 @@ def ev_bipartite(case, tmp):
     H = build_net(net)
     p = os.path.join(tmp, "bip.txt")
     edges = [[e, list(H.edges.members(e))] for e in H.edges]
-    xgi.write_bipartite_edgelist(H, p, delimiter=case["delim"])
-    text = case.get("text") if case.get("text") is not None else read_text(p)
+    enc = case.get("encoding", "utf-8")
+    ekw = {"encoding": enc} if "encoding" in case else {}
+    U = using_of(case)
+    ukw = {"create_using": U} if case.get("using") else {}
+    if "encoding" in case and not encodable([x for e, ms in edges for x in [e] + ms], enc):
+        enc, ekw = "utf-8", {}
+    xgi.write_bipartite_edgelist(H, p, delimiter=case["delim"], **ekw)
+    text = case.get("text") if case.get("text") is not None else read_text(p, enc)
     if case.get("text") is not None:
-        with open(p, "wb") as f:
-            f.write(text.encode("utf-8"))
+        write_text(p, text, enc)
     dual = bool(case.get("dual"))
     nty, ety = case.get("nodetype"), case.get("edgetype")
     cm = case.get("comments", "#")
@@ -353,23 +502,27 @@ def ev_bipartite(case, tmp):
     fails = []
     STAT["predicate:bipartite" + (":dual" if dual else "")] += bool(dom)
     try:
-        R = xgi.read_bipartite_edgelist(p, comments=cm, delimiter=case["rdelim"], nodetype=TY[nty], edgetype=TY[ety], dual=dual)
+        R = xgi.read_bipartite_edgelist(p, comments=cm, delimiter=case["rdelim"], nodetype=TY[nty], edgetype=TY[ety], dual=dual, **ekw, **ukw)
         res = net_result(R)
         if dom:
             want = sorted((repr(e), repr(n)) if dual else (repr(n), repr(e)) for e, ms in edges for n in ms)
             got = sorted((repr(n), repr(e)) for e in R.edges for n in R.edges.members(e))
             if got != want:
-                fails.append(("incidences-differ" + (":dual" if dual else ""), f"wrote {want} read {got}"))
+                fails.append(("incidences-differ" + (":dual" if dual else ""), f"delimiter {case['delim']!r}: wrote {want} read {got}"))
             else:
                 wn = sorted({repr(e) for e in used_e} if dual else {repr(n) for n in used_n})
                 we = sorted({repr(n) for n in used_n} if dual else {repr(e) for e in used_e})
                 if sorted(map(repr, R.nodes)) != wn or sorted(map(repr, R.edges)) != we:
                     fails.append(("ids-differ" + (":dual" if dual else ""), f"nodes {list(R.nodes)} edges {list(R.edges)}"))
+                elif dict(R._net_attr):
+                    fails.append(("create-using-not-cleared", f"network attributes {dict(R._net_attr)} survive in the network read"))
+                elif case.get("using") in ("instance", "used-instance") and R is not U:
+                    fails.append(("create-using-ignored", "the network read is not the instance given as create_using"))
     except Exception as ex:  # noqa
         res = {"out": outcome(ex)}
         if dom:
-            fails.append(("read-raises" + (":dual" if dual else ""), f"read_bipartite_edgelist raised {type(ex).__name__}: {ex}"))
-    gen = read_text(p) if case.get("text") is None else None
+            fails.append(("read-raises" + (":dual" if dual else ""), f"read_bipartite_edgelist (delimiter {case['rdelim']!r}, comments {cm!r}, encoding {enc}) raised {type(ex).__name__}: {ex}"))
+    gen = read_text(p, enc) if case.get("text") is None else None
     return fails, [req], [{"out": "ok", "gen": gen, "read": res}]
 
 
@@ -379,34 +532,47 @@ def ev_incidence(case, tmp):
     p = os.path.join(tmp, "inc.txt")
     nodes, eids = list(H.nodes), list(H.edges)
     n, m = len(nodes), len(eids)
+    enc = case.get("encoding", "utf-8")
+    ekw = {"encoding": enc} if "encoding" in case else {}
+    U = using_of(case)
+    ukw = {"create_using": U} if case.get("using") else {}
     if case.get("text") is None:
-        xgi.write_incidence_matrix(H, p, delimiter=case["delim"])
-        text = read_text(p)
+        xgi.write_incidence_matrix(H, p, delimiter=case["delim"], **ekw)
+        text = read_text(p, enc)
     else:
         text = case["text"]
-        with open(p, "wb") as f:
-            f.write(text.encode("utf-8"))
+        write_text(p, text, enc)
     cm = case.get("comments", "#")
     req = {"f": "incidence", "delim": case["delim"], "rdelim": case["rdelim"], "comments": cm, "text": text}
     if case.get("text") is None:
         req["net"] = {"nodes": nodes, "edges": [[e, list(H.edges.members(e))] for e in eids]}
+    # the tokens are '0'/'1' floats in 'e' notation: any delimiter / comment token made of other characters is admissible
+    tokchars = set("01.e+")
     dom = (case.get("text") is None and n >= 1 and m >= 1 and case.get("in_domain", True)
-           and (case["rdelim"] == case["delim"] or m == 1 or (case["rdelim"] is None and case["delim"] in (" ", "\t"))))
+           and (case["rdelim"] == case["delim"] or m == 1 or (case["rdelim"] is None and case["delim"].isspace()))
+           and not (tokchars & set(case["delim"])) and (cm is None or not ((tokchars | set(case["delim"])) & set(cm))))
     fails = []
     STAT["predicate:incidence" + (":1xm" if n == 1 and m > 1 else ":nx1" if m == 1 and n > 1 else ":1x1" if n == 1 and m == 1 else "")] += bool(dom)
     try:
-        R = quiet(xgi.read_incidence_matrix, p, comments=cm, delimiter=case["rdelim"])
+        R = quiet(xgi.read_incidence_matrix, p, comments=cm, delimiter=case["rdelim"], **ekw, **ukw)
         res = net_result(R)
         if dom:
             want = sorted((i, j) for j, e in enumerate(eids) for i, x in enumerate(nodes) if x in H.edges.members(e))
             got = sorted((x, e) for e in R.edges for x in R.edges.members(e))
             if got != want:
-                fails.append(("incidences-differ", f"{n}x{m} matrix: wrote incidences {want} read {got}"))
+                fails.append(("incidences-differ", f"{n}x{m} matrix, delimiter {case['delim']!r}: wrote incidences {want} read {got}"))
+            elif dict(R._net_attr):
+                fails.append(("create-using-not-cleared", f"network attributes {dict(R._net_attr)} survive in the network read"))
+            elif case.get("using") in ("instance", "used-instance") and R is not U:
+                fails.append(("create-using-ignored", "the network read is not the instance given as create_using"))
     except Exception as ex:  # noqa
         res = {"out": outcome(ex)}
         if dom:
-            cls = "single-row-or-column-unreadable" if (n == 1 or m == 1) else "read-raises"
-            fails.append((cls, f"{n}x{m} matrix: read_incidence_matrix raised {type(ex).__name__}: {ex}"))
+            if case["rdelim"] is not None and len(case["rdelim"]) > 1 and isinstance(ex, TypeError) and "single unicode character" in str(ex):
+                cls = MULTICHAR
+            else:
+                cls = "single-row-or-column-unreadable" if (n == 1 or m == 1) else "read-raises"
+            fails.append((cls, f"{n}x{m} matrix written with delimiter {case['delim']!r}: read_incidence_matrix(delimiter={case['rdelim']!r}) raised {type(ex).__name__}: {ex}"))
         elif case.get("text") is not None:
             # a hand-made file: no source network, so no predicate; but a raise on a file with one data row or one
             # column is the same defect as the class above and must not be booked as a model disagreement
@@ -415,8 +581,11 @@ def ev_incidence(case, tmp):
             cols = {len(r.split(case["rdelim"])) for r in rows}
             if len(rows) == 1 or cols == {1}:
                 fails.append(("~single-row-or-column-unreadable", "hand-made single-row/column file"))
-    gen = read_text(p) if case.get("text") is None else None
+    gen = read_text(p, enc) if case.get("text") is None else None
     return fails, [req], [{"out": "ok", "gen": gen, "read": res}]
+
+
+MULTICHAR = "multi-character-delimiter-unreadable"
 
 
 def ev_collection(case, tmp):
@@ -430,22 +599,36 @@ def ev_collection(case, tmp):
     os.makedirs(d)
     arg = Hs if names is None else dict(zip(names, Hs))
     cname = case.get("cname", "c")
+    keys = [str(i) for i in range(len(Hs))] if names is None else [str(x) for x in names]
+    # the files of a collection: "<name>_<member>.json" + "<name>_collection_information.json"; write_json without a
+    # collection name writes "<member>.json" + "collection_information.json"
+    prefix = (cname + "_") if (cname or kind == "hifcoll") else ""
+    expect = sorted([f"{prefix}{k}.json" for k in keys] + [f"{prefix}collection_information.json"])
     fails = []
     try:
         if kind == "hifcoll":
             xgi.write_hif_collection(arg, d, collection_name=cname)
-            info = os.path.join(d, f"{cname}_collection_information.json")
-            R = xgi.read_hif_collection(info, nodetype=TY[case.get("nodetype")], edgetype=TY[case.get("edgetype")])
         else:
             quiet(xgi.write_json, arg, d, collection_name=cname)
-            info = os.path.join(d, f"{cname}_collection_information.json" if cname else "collection_information.json")
-            R = quiet(xgi.read_json, info, nodetype=TY[case.get("nodetype")], edgetype=TY[case.get("edgetype")])
     except Exception as ex:  # noqa
-        return [("collection-raises", f"{type(ex).__name__}: {ex}")], None, None
-    STAT["predicate:" + kind + (":list" if names is None else ":dict")] += 1
-    keys = [str(i) for i in range(len(Hs))] if names is None else list(names)
+        return [("collection-raises", f"writing raised {type(ex).__name__}: {ex}")], None, None
+    if sorted(os.listdir(d)) != expect:
+        fails.append(("collection-file-names", f"collection_name={cname!r}: files {sorted(os.listdir(d))} instead of {expect}"))
+    infos = glob.glob(os.path.join(d, "*collection_information.json"))
+    if len(infos) != 1:
+        return fails + [("collection-raises", f"{len(infos)} collection information files in {sorted(os.listdir(d))}")], None, None
+    try:
+        if kind == "hifcoll":
+            R = xgi.read_hif_collection(infos[0], nodetype=TY[case.get("nodetype")], edgetype=TY[case.get("edgetype")])
+        else:
+            R = quiet(xgi.read_json, infos[0], nodetype=TY[case.get("nodetype")], edgetype=TY[case.get("edgetype")])
+    except Exception as ex:  # noqa
+        if isinstance(ex, TypeError) and "got multiple values for argument" in str(ex):
+            return fails + [(KWARG_CLASH, f"reading the collection raised {type(ex).__name__}: {ex}")], None, None
+        return fails + [("collection-raises", f"reading raised {type(ex).__name__}: {ex}")], None, None
+    STAT["predicate:" + kind + (":list" if names is None else ":dict") + (":unnamed" if not cname else "")] += 1
     if not isinstance(R, dict) or sorted(R.keys()) != sorted(keys):
-        return [("collection-keys", f"wrote members {keys} read {sorted(R.keys()) if isinstance(R, dict) else type(R).__name__}")], None, None
+        return fails + [("collection-keys", f"wrote members {keys} read {sorted(R.keys()) if isinstance(R, dict) else type(R).__name__}")], None, None
     for k, H in zip(keys, Hs):
         for c, det in same_network(snap(H), snap(R[k])):
             fails.append((f"collection-member-{c}:" + type(H).__name__, f"member {k}: {det}"))
@@ -531,6 +714,16 @@ def shrink(case, cls, tmp, budget=300):
 
 # ----------------------------------------------------------------------------- case streams
 
+def option_axis(rng, case):
+    """reader / writer options beyond the defaults: comment token, encoding, create_using"""
+    if rng.random() < 0.3:
+        case["comments"] = rng.choice(COMMENT_TOKENS)
+    if rng.random() < 0.25:
+        case["encoding"] = rng.choice(ENCODINGS)
+    if rng.random() < 0.25:
+        case["using"] = rng.choice(["class", "instance", "used-instance"])
+
+
 def text_cases(rng, n, fmt):
     out = []
     for _ in range(n):
@@ -539,11 +732,12 @@ def text_cases(rng, n, fmt):
         ekind = rng.choice(["int", "int", "str", "odd"]) if fmt == "bipartite" else "int"
         net = gen_net(rng, "Hypergraph", node_kind=kind, edge_kind=ekind, attrs=False, empty_edges=rng.random() < 0.15,
                       isolated=rng.random() < 0.3)
-        d = rng.choice(DELIMS)
-        rd = d if rng.random() < 0.85 else (None if d in (" ", "\t") and rng.random() < 0.8 else rng.choice(DELIMS + [None]))
+        d = rng.choice(MULTI_DELIMS) if rng.random() < 0.3 else rng.choice(DELIMS)
+        rd = d if rng.random() < 0.85 else (None if d.isspace() and rng.random() < 0.8 else rng.choice(DELIMS + [None]))
         nk = {"int": "int", "str": rng.choice([None, "str"]), "odd": rng.choice([None, "str"]), "mixed": None}
         nty = nk[kind] if rng.random() < 0.85 else rng.choice([None, "int", "str"])
         case = {"fmt": fmt, "net": net, "delim": d, "rdelim": rd, "nodetype": nty}
+        option_axis(rng, case)
         if fmt == "bipartite":
             case["edgetype"] = nk[ekind] if rng.random() < 0.85 else rng.choice([None, "int", "str"])
             case["dual"] = rng.random() < 0.4
@@ -565,9 +759,11 @@ def incidence_cases(rng, n):
             net = gen_net(rng, "Hypergraph", attrs=False, empty_edges=rng.random() < 0.3)
         if not net["edges"]:
             net["edges"] = [[0, [net["nodes"][0][0]], {}]]
-        d = rng.choice(DELIMS)
-        rd = d if rng.random() < 0.8 else (None if d in (" ", "\t") else rng.choice(DELIMS))
-        out.append({"fmt": "incidence", "net": net, "delim": d, "rdelim": rd})
+        d = rng.choice(MULTI_DELIMS) if rng.random() < 0.3 else rng.choice(DELIMS)
+        rd = d if rng.random() < 0.8 else (None if d.isspace() else rng.choice(DELIMS))
+        case = {"fmt": "incidence", "net": net, "delim": d, "rdelim": rd}
+        option_axis(rng, case)
+        out.append(case)
     return out
 
 
@@ -621,11 +817,18 @@ def hif_cases(rng, n):
         case = {"fmt": "hif", "net": net}
         ids_n = [x for x, _ in net["nodes"]]
         ids_e = [e for e, _, _ in net["edges"]]
-        if cls != "SimplicialComplex" and rng.random() < 0.25:
+        r = rng.random()
+        if cls != "SimplicialComplex" and r < 0.2:          # identity casts
             if ids_n and all(isinstance(x, int) for x in ids_n):
                 case["nodetype"] = "int"
             if ids_e and all(isinstance(x, int) for x in ids_e):
                 case["edgetype"] = "int"
+        elif cls != "SimplicialComplex" and r < 0.4 and all(isinstance(x, int) for x in ids_n + ids_e):
+            # casts that change the IDs: ints read with str; the same IDs as digit strings read with int
+            if rng.random() < 0.5:
+                case.update(nodetype=rng.choice(["str", None]), edgetype="str", real_cast=True)
+            else:
+                case.update(net=relabel_net(net, str, str), nodetype="int", edgetype=rng.choice(["int", None]), real_cast=True)
         out.append(case)
     return out
 
@@ -638,8 +841,13 @@ def json_cases(rng, n):
         good = {"int": "int", "str": rng.choice([None, "str"])}
         case = {"fmt": "json", "net": net, "nodetype": good[nk], "edgetype": good[ek]}
         r = rng.random()
-        if r < 0.2:       # mismatched casts: correspondence only
+        if r < 0.1:       # mismatched casts: correspondence only
             case["nodetype"], case["edgetype"] = rng.choice([None, "int", "str"]), rng.choice([None, "int", "str"])
+        elif r < 0.2:     # documented casts that change the IDs (int IDs without a cast -> str; digit strings with int -> int)
+            case["nodetype"], case["edgetype"] = rng.choice([None, "int", "str"]), rng.choice([None, "int", "str"])
+            if rng.random() < 0.5 and nk == "int" and ek == "int":
+                case["net"] = relabel_net(net, str, str)
+            case["real_cast"] = True
         elif r < 0.3:     # colliding string forms: the writer must refuse
             ints = [x for x, _ in net["nodes"] if isinstance(x, int)]
             if ints:
@@ -661,8 +869,8 @@ def collection_cases(rng, n):
             nets = [gen_net(rng, "Hypergraph", node_kind=nk, edge_kind=ek) for _ in range(k)]
             good = {"int": "int", "str": None}
             case = {"fmt": "jsoncoll", "nets": nets, "nodetype": good[nk], "edgetype": good[ek]}
-        case["names"] = None if rng.random() < 0.5 else ["first", "b2", "third_one"][:k]
-        case["cname"] = rng.choice(["c", "data set", "x1"])
+        case["names"] = None if rng.random() < 0.5 else rng.choice([["first", "b2", "third_one"], ["0", "x y", "é"], [7, 8, 9]])[:k]
+        case["cname"] = rng.choice(["", "", "c", "data set", "x1", "a_b", "tail_"])
         out.append(case)
     return out
 
@@ -692,6 +900,8 @@ def corpus_cases():
 
 def model_compare(fmt, want, got):
     """impl result vs canonicalised model response"""
+    if "_c10" in want:      # whole-network HIF / JSON documents: the comparison of C10 (set-iteration order, faces of a complex)
+        return C10.same(want["_c10"], {k: v for k, v in want.items() if k != "_c10"}, got)
     if fmt == "edgelist" and isinstance(got.get("read"), dict) and "nodes" in got["read"]:
         got = dict(got); got["read"] = dict(got["read"]); got["read"]["nodes"] = sorted(got["read"]["nodes"], key=idkey)
     if want.get("gen", "absent") is None:
@@ -777,6 +987,29 @@ def run_cases(ctx, cases, tmp, do_model=True):
     return dis
 
 
+def observations(tmp):
+    """behaviour outside the statement's quantifier (delimiters and casts), measured each run and recorded, not judged"""
+    obs = {}
+    H = xgi.Hypergraph([["a", "b"], ["b", "c"]])
+    for enc in ("utf-16", "utf-32"):
+        p = os.path.join(tmp, "obs.txt")
+        try:
+            xgi.write_edgelist(H, p, delimiter=",", encoding=enc)
+            R = xgi.read_edgelist(p, delimiter=",", encoding=enc)
+            obs[f"edgelist encoding={enc}"] = "reads back" if [set(m) for m in R.edges.members()] == [{"a", "b"}, {"b", "c"}] else "reads back differently"
+        except Exception as ex:  # noqa
+            obs[f"edgelist encoding={enc}"] = f"raises {type(ex).__name__} (writers encode and readers decode line by line at the byte level)"
+    try:
+        U = xgi.Hypergraph([[1, 2]])
+        p = os.path.join(tmp, "obs2.txt")
+        xgi.write_edgelist(H, p)
+        R = xgi.read_edgelist(p, create_using=U)
+        obs["create_using=instance that had edges"] = f"edge IDs of the network read: {list(R.edges)} (clear() keeps the automatic-ID counter; C04's business)"
+    except Exception as ex:  # noqa
+        obs["create_using=instance that had edges"] = f"raises {type(ex).__name__}"
+    return obs
+
+
 def all_cases(ctx, rng, scale):
     cases = []
     cases += hif_cases(rng, 45 * scale)
@@ -792,17 +1025,23 @@ def all_cases(ctx, rng, scale):
 def run(ctx):
     ok = build_and_audit(ctx, "XgiModel.Props.C11", ["XgiModel.C11.Drive"])
     rng = ctx.rng
-    ctx.rule = ("networks from one PRNG: 1-6 nodes (int / str / mixed / unicode / 'odd' labels containing delimiters, '#', padding), 0-5 edges "
-                "(explicit int/str IDs, empty edges, multi-edges, isolated nodes), JSON-representable node/edge/network attributes "
-                "(nested lists/dicts, None, bools, ints, floats, unicode); each is really written to a temporary directory and read back: "
-                "HIF x 3 classes, JSON with nodetype/edgetype, edge list / bipartite edge list (dual) / incidence matrix x delimiters "
-                "' ' ',' ';' '|' '\\t' (+ delimiter=None) x casts {None,int,str}, 1xm / nx1 / 1x1 matrices, collections (list and dict), "
+    ctx.rule = ("networks from one PRNG: 1-6 nodes (int / str / mixed / unicode / latin-1 / 'odd' labels containing delimiters, '#', padding), "
+                "0-5 edges (explicit int/str IDs, empty edges, multi-edges, isolated nodes), JSON-representable node/edge/network attributes "
+                "(nested lists/dicts, None, bools, ints, floats, unicode) whose KEYS include the parameter names node / idx / members / attr / "
+                "edge / n / self; each is really written to a temporary directory and read back: HIF x 3 classes (+ identity casts, + casts "
+                "that change the IDs: digit strings -> int, int -> str), JSON with nodetype/edgetype (+ such casts), edge list / bipartite "
+                "edge list (dual) / incidence matrix x delimiters ' ' ',' ';' '|' '\\t' and the multi-character ones ', ' '::' '||' '\\t ' "
+                "' ; ' '-->' (+ delimiter=None) x casts {None,int,str} x comments {'#','%','//',None} x encoding {utf-8, latin-1, cp1252, "
+                "ascii} x create_using {None, class, fresh instance, instance with content}, 1xm / nx1 / 1x1 matrices, collections (list and "
+                "dict, int / str / unicode member names, collection_name '' / 'c' / 'data set' / 'a_b' / 'tail_'; file names checked), "
                 "hand-made files (comments, blank lines, padding, short lines, bad casts, ragged rows).  evaluations = write+read round "
                 "trips; non-trivial = distinct case whose network has an edge with >= 2 members")
     tmp = tempfile.mkdtemp(prefix="xgi-c11-")
     STAT.clear()
+    JSON_LAYER.clear()
     _SHRUNK.clear()
     try:
+        ctx.extra["observations"] = observations(tmp)
         cases = corpus_cases()
         ctx.stats["corpus_cases"] = len(cases)
         cases += all_cases(ctx, rng, ctx.n(25, 400))
@@ -825,25 +1064,48 @@ def run(ctx):
     ctx.extra["tmpdir_removed"] = not os.path.exists(tmp)
     for k, v in STAT.items():
         ctx.stats[k] += v
+    # the explicit hypothesis of write_hif_read_hif_rt* / write_json_read_json_rt (JsonLayer.RoundTrip), exhibited on every
+    # document the implementation wrote in this run: json.loads(file) == to_hif_dict(H) / to_hypergraph_dict(H)
+    ctx.extra["json_layer_hypothesis"] = dict(JSON_LAYER)
+    for k in ("hif", "json"):
+        if JSON_LAYER[k + ":documents"] != JSON_LAYER[k + ":loads(dumps(d))==d"]:
+            ctx.broken.append(f"hypothesis JsonLayer.RoundTrip failed on {JSON_LAYER[k + ':documents'] - JSON_LAYER[k + ':loads(dumps(d))==d']} "
+                              f"{k} documents of this run (generator produced a value json does not preserve)")
+            raise Infra("generator defect: an attribute value / label that json.dumps/loads does not preserve was generated")
+    un = sum(v for k, v in ctx.stats.items() if k.startswith("unmodelled:"))
+    ctx.extra["model_skip_rate"] = {"unmodelled_requests": un, "compared_requests": ctx.traces,
+                                    "why": "delimiters / comment tokens of several characters, labels outside int/str, int() literals "
+                                           "outside plain decimals, float tokens other than np.savetxt's: predicate only"}
     ctx.assumptions = [
         "labels are int or str (JSON-representable and inside the model); bool/float/tuple labels are not generated",
         "attribute values are JSON-representable and JSON-faithful: None, bool, int, finite float, str, lists and str-keyed dicts of "
-        "these (tuples, NaN/inf, non-str dict keys change under json and are outside the statement)",
+        "these (tuples, NaN/inf, non-str dict keys change under json and are outside the statement); that json.loads(json.dumps(d)) == d "
+        "holds for every document written in the run is checked (coverage.json_layer_hypothesis) - it is the explicit hypothesis "
+        "JsonLayer.RoundTrip of the theorems write_hif_read_hif_rt* / write_json_read_json_rt*",
         "write_json/read_json: node labels of one type (all int -> nodetype=int, all str -> None/str), likewise edge IDs; colliding "
-        "string forms must be refused with XGIError",
-        "text formats: the predicate is evaluated when every rendered label is non-empty, contains neither the delimiter, '#' "
-        "(the default comment token) nor a newline and has no leading/trailing whitespace (line.strip()), no edge is empty (an "
-        "edge list cannot represent an empty edge: its blank line reads back as an edge containing the label ''), and the cast "
-        "matches the label type; outside this domain only model/implementation agreement is checked",
+        "string forms must be refused with XGIError; casts that change the IDs (no cast on ints -> strings, int on digit strings -> "
+        "ints) must give the same network under the cast IDs",
+        "text formats: the predicate is evaluated when every rendered label is non-empty, contains neither the delimiter, the comment "
+        "token in force nor a newline and has no leading/trailing whitespace (line.strip()), no edge is empty (an edge list cannot "
+        "represent an empty edge: its blank line reads back as an edge containing the label ''), the cast matches the label type, and "
+        "the labels are representable in the chosen encoding; for a delimiter of several characters 'cannot occur in a label' is read "
+        "as 'shares no character with any label' ('a:' + '::' + 'b' would split wrongly); outside this domain only model/"
+        "implementation agreement is checked; delimiters / comment tokens of several characters are outside the Lean model "
+        "(per character): predicate only",
+        "encoding: ASCII-compatible encodings without byte-order mark only; utf-16 / utf-32 files cannot be read back (line-wise byte "
+        "handling) - not in the statement's quantifier (delimiters and casts), recorded under coverage.observations, not judged",
         "edge list: edge IDs and isolated nodes are not part of the format (edges compared by position); bipartite edge list: "
         "isolated nodes and empty edges are not part of the format; incidence matrix: labels are not part of the format "
         "(incidences compared by position), at least one node and one edge",
+        "collections: the file names '<collection_name>_<member>.json' / '<collection_name>_collection_information.json' (write_json "
+        "without a collection name: '<member>.json' / 'collection_information.json') are part of what is checked",
         "SimplicialComplex: explicit simplex IDs are strings so that they cannot collide with automatic face IDs (C04's business)",
         "set iteration order: the members of an edge are given to the model in the order the implementation iterates them",
     ]
     return finish(ctx, trusted_base=TRUSTED_COMMON + [
-        "file system, utf-8 codec, json.dumps/loads, np.savetxt float formatting and np.loadtxt float parsing are runtime: identities / "
-        "constants of the model, exhibited by the correspondence on real files only",
+        "file system, text codecs, json.dumps/loads (hypothesis JsonLayer.RoundTrip of the HIF / JSON theorems, exhibited on every document "
+        "of the run), np.savetxt float formatting and np.loadtxt float parsing are runtime: identities / constants of the model, exhibited "
+        "by the correspondence on real files only",
     ])
 
 
